@@ -379,6 +379,10 @@ fn rand_adp(
     chain_gen: &(dyn Fn(&mut Rng) -> (Vec<Stage>, bool) + Sync),
     nontrivial: &(dyn Fn(&AFacts) -> bool + Sync),
 ) -> Outcome {
+    if p.san() && (gen_name.ends_with("-giant") || gen_name.ends_with("-scale")) {
+        // thousands of items / messages: native runs only (Miri would take hours, 4 KB elements gigabytes)
+        return Outcome::default();
+    }
     let seed = p.seed;
     // under Miri: short histories on vectors within one imbl chunk (imbl 5.0's FocusMut, which Sort's bulk sort
     // goes through for longer vectors, is reported by Miri's Tree Borrows model - a matter of that dependency,
